@@ -44,6 +44,11 @@ class C12(common.Spec):
                 if how == 'fail':
                     log.append(['end', loop.vt_us, ident, 'error'])
                     raise RuntimeError('output failed')
+                if how == 'selfcancel':
+                    # the coroutine ends with a CancelledError of its own (e.g. a helper task it awaited
+                    # was cancelled): nobody cancelled the run
+                    log.append(['end', loop.vt_us, ident, 'cancelled'])
+                    raise asyncio.CancelledError('cancelled inside the coroutine')
                 log.append(['end', loop.vt_us, ident, 'success'])
                 return ident
 
@@ -143,8 +148,9 @@ class C12(common.Spec):
                 elif k == 'stop':
                     steps.append(f"OStop {cz(e[1])}")
         fo = obs['final_output'] if isinstance(obs['final_output'], int) else -1
-        return "{| oc_cfg := {| o_mode := %s; o_guard := %s |};\n oc_steps := %s;\n oc_final_output := %s |}" % (
-            mode, cz(case['guard_us']), clist(steps), cz(fo))
+        sc = [int(k) for k, v in case['script'].items() if v[1] == 'selfcancel']
+        return ("{| oc_cfg := {| o_mode := %s; o_guard := %s; o_selfcancel := %s |};\n oc_steps := %s;\n"
+                " oc_final_output := %s |}") % (mode, cz(case['guard_us']), clist(sc, cnat), clist(steps), cz(fo))
 
     def nontrivial(self, case, obs):
         return sum(1 for e in obs['log'] if e[0] == 'start') >= 2
@@ -176,7 +182,8 @@ def gen_case(rng):
     times = sorted(rng.choice(grid) for _ in range(rng.randrange(1, 5)))
     puts = [[t, i + 1] for i, t in enumerate(times)]
     script = {str(i + 1): [rng.choice([50_000, 100_000, 150_000, 300_000]),
-                          'fail' if rng.random() < 0.2 else 'ok'] for i in range(len(puts))}
+                          rng.choice(['fail', 'fail', 'selfcancel']) if rng.random() < 0.3 else 'ok']
+              for i in range(len(puts))}
     script[str(STOP_ID)] = [rng.choice([50_000, 100_000]), 'ok']
     script[str(LATE_ID)] = [rng.choice([50_000, 100_000]), 'ok']
     script[str(AFTER_ID)] = [50_000, 'ok']
